@@ -189,3 +189,8 @@ func verifDebugf(format string, args ...interface{}) { VerifDebugf(format, args.
 // VerifProtect/VerifUnprotect: executor-only write barrier (C20 frame check).
 func VerifProtect(x interface{}) {}
 func VerifUnprotect()            {}
+
+// VerifConsumerScript tells the executor how the single consumer of a
+// producer goroutine behaves (receives `budget` values, then cancels); natively
+// the real goroutines run and this is a no-op.
+func VerifConsumerScript(budget int, cancels bool) {}
